@@ -18,7 +18,7 @@ pub enum DataForm {
 
 #[derive(Clone, Debug)]
 pub enum DataItem {
-    Set(u16),
+    Set(u32),
     Def { label: Option<String>, dir: &'static str, form: DataForm },
 }
 
@@ -250,9 +250,9 @@ fn data_json(d: &DataItem) -> Value {
         DataItem::Def { label, dir, form } => {
             let l = label.clone().unwrap_or_default();
             match form {
-                DataForm::Num(v) => json!({"k":"def","label":l,"dir":dir,"form":"num","v":(*v as i64).rem_euclid(65536)}),
+                DataForm::Num(v) => json!({"k":"def","label":l,"dir":dir,"form":"num","v":(*v as i64).rem_euclid(65536),"raw":v}),
                 DataForm::Zero(n) => json!({"k":"def","label":l,"dir":dir,"form":"zero","n":n}),
-                DataForm::Fill(v, n) => json!({"k":"def","label":l,"dir":dir,"form":"fill","v":(*v as i64).rem_euclid(65536),"n":n}),
+                DataForm::Fill(v, n) => json!({"k":"def","label":l,"dir":dir,"form":"fill","v":(*v as i64).rem_euclid(65536),"raw":v,"n":n}),
                 DataForm::Str(s) => json!({"k":"def","label":l,"dir":dir,"form":"str","bytes":s.as_bytes()}),
             }
         }
@@ -420,6 +420,13 @@ pub fn run_batch(bin: &str, dir: &str, progs: &[(Program, Layout)], rng: &mut Rn
         });
         all.into_iter().flatten().collect()
     };
+    for (evs, (p, _)) in results.iter().zip(progs.iter()) {
+        let fam: String = p.note.split('-').take(2).collect::<Vec<_>>().join("-");
+        let refused = evs.iter().any(|e| e["ev"] == "diag");
+        let ran = evs.iter().filter(|e| e["ev"] == "step").count();
+        sh.count(&format!("{}:{}:{}", key, if fam.is_empty() { "generated" } else { &fam }, if refused { "refused" } else { "ran" }), 1);
+        sh.count(&format!("{}-steps", key), ran as u64);
+    }
     for evs in results {
         sh.count(key, 1);
         sh.count(&format!("{}-events", key), evs.len() as u64);
